@@ -1,5 +1,9 @@
 use vstd::prelude::*;
 verus! {
+// std definition of Result::or_else (trusted)
+pub assume_specification<T, E, F, O: FnOnce(E) -> Result<T, F>>[core::result::Result::<T, E>::or_else](r: Result<T, E>, op: O) -> (o: Result<T, F>)
+    requires r is Err ==> op.requires((r->Err_0,)),
+    ensures r is Ok ==> o == Ok::<T, F>(r->Ok_0), r is Err ==> op.ensures((r->Err_0,), o);
 // ---- constants (extracted from /repo on every run) ----
 pub const MAX_BLOCKS_FOR_CONF: u32 = 18;
 
@@ -20,8 +24,14 @@ pub const MIN_FINAL_CLTV_EXPIRY_DELTA: u16 = HTLC_FAIL_BACK_BUFFER as u16 + 3;
 
 pub enum LocalHTLCFailureReason { FeeInsufficient, IncorrectCLTVExpiry, CLTVExpiryTooSoon, CLTVExpiryTooFar, OutgoingCLTVTooSoon }
 pub struct UpdateAddHTLC { pub amount_msat: u64, pub cltv_expiry: u32 }
+#[derive(Clone, Copy)]
 pub struct ChannelConfig { pub forwarding_fee_proportional_millionths: u32, pub forwarding_fee_base_msat: u32, pub cltv_expiry_delta: u16 }
-pub struct FundedChannel {}
+pub struct ChannelContext { pub cfg: ChannelConfig, pub prev: Option<ChannelConfig> }
+impl ChannelContext {
+    #[verifier::external_body] pub fn config(&self) -> (r: ChannelConfig) ensures r == self.cfg { unimplemented!() }
+    #[verifier::external_body] pub fn prev_config(&self) -> (r: Option<ChannelConfig>) ensures r == self.prev { unimplemented!() }
+}
+pub struct FundedChannel { pub context: ChannelContext }
 
 pub open spec fn fwd_fee(amt: int, c: &ChannelConfig) -> int { amt * (c.forwarding_fee_proportional_millionths as int) / 1000000 + c.forwarding_fee_base_msat as int }
 
@@ -51,6 +61,40 @@ fn internal_htlc_satisfies_config(
 			return Err(LocalHTLCFailureReason::IncorrectCLTVExpiry);
 		}
 		Ok(())
+	}
+
+pub fn htlc_satisfies_config(
+		&self, htlc: &UpdateAddHTLC, amt_to_forward: u64, outgoing_cltv_value: u32,
+	) -> (r: Result<(), LocalHTLCFailureReason>)
+    ensures
+    r is Ok ==> ((amt_to_forward as int + fwd_fee(amt_to_forward as int, &self.context.cfg) <= htlc.amount_msat
+                  && outgoing_cltv_value as int + self.context.cfg.cltv_expiry_delta as int <= htlc.cltv_expiry)
+              || (self.context.prev is Some
+                  && amt_to_forward as int + fwd_fee(amt_to_forward as int, &self.context.prev->Some_0) <= htlc.amount_msat
+                  && outgoing_cltv_value as int + self.context.prev->Some_0.cltv_expiry_delta as int <= htlc.cltv_expiry)),
+ {
+		self.internal_htlc_satisfies_config(
+			&htlc,
+			amt_to_forward,
+			outgoing_cltv_value,
+			&self.context.config(),
+		)
+		.or_else(|err: LocalHTLCFailureReason| -> (o: Result<(), LocalHTLCFailureReason>)
+        ensures o is Ok ==> self.context.prev is Some
+            && amt_to_forward as int + fwd_fee(amt_to_forward as int, &self.context.prev->Some_0) <= htlc.amount_msat
+            && outgoing_cltv_value as int + self.context.prev->Some_0.cltv_expiry_delta as int <= htlc.cltv_expiry
+        {
+			if let Some(prev_config) = self.context.prev_config() {
+				self.internal_htlc_satisfies_config(
+					htlc,
+					amt_to_forward,
+					outgoing_cltv_value,
+					&prev_config,
+				)
+			} else {
+				Err(err)
+			}
+		})
 	}
 
 }
